@@ -319,8 +319,6 @@ def run_case(seed, i, tier):
         plan = core.random_plan(prng, len(scn.files), budget=3_000_000)
         plan.hashseed = rng.getrandbits(32)
         res = core.execute(scn, plan, wall_cap=20.0)
-        if res.timed_out:
-            res = core.execute(scn, plan, wall_cap=60.0)
         tr = res.trace
         cr.runs += 1
         cr.steps += tr.steps
@@ -350,8 +348,6 @@ def classes_of(rp):
     scn = core.Scenario.from_json(rp["scenario"])
     plan = core.Plan.from_json(rp["plan"])
     res = core.execute(scn, plan)
-    if res.timed_out:
-        res = core.execute(scn, plan, wall_cap=120.0)
     return set(c for (c, _) in evaluate(res, mergecheck.sources_from_json(rp.get("valids", []))))
 
 
